@@ -34,6 +34,15 @@ CLAIMS = {
     "C10": ("other", "4.C10", "provenance terms: fresh CSPRNG draw per build, whole buffer, all bytes on the wire",
             "Decides freshness by construction; the statistical statement over histories of an OS CSPRNG is not decidable statically.",
             "trusted: ring SystemRandom is a CSPRNG"),
+    "C11": ("proof", "4.C11", "CFG/term check of the registration + finite-partition abstract interpretation of the validator closure's MIR",
+            "Behaviour table of the default exp validator over an exhaustive partition of (JSON value class x time order); every class is an obligation and must get the required verdict; plus registration on every path and plumbing down to claim_validators.",
+            "trusted: time's RFC 3339 parser and instant ordering; serde_json accessors; models in rules/models.py"),
+    "C12": ("proof", "4.C12", "CFG/term check of the registration + finite-partition abstract interpretation of the validator closure's MIR",
+            "Same as C11 for nbf with the direction reversed.",
+            "trusted: time's RFC 3339 parser and instant ordering; serde_json accessors; models in rules/models.py"),
+    "C17": ("proof", "4.C17", "abstract interpretation of set_claim / verify_ready_to_build + who-writes (monotone flag invariant) + CFG dominance in the 8 build methods",
+            "The history quantifier is discharged by an invariant (flag set <=> a key was inserted twice; flag set => build fails first) whose preservation by every method is checked; all obligations must be discharged.",
+            "trusted: HashSet::insert semantics; get_key purity for user-defined claims"),
     "C20": ("proof", "4.C20", "type checker as oracle over the feature lattice (cargo check of a generated client) + cfg lint + API-growth comparison of driver facts",
             "Every configuration of the tier is type-checked (quick: singletons, pairs, full set, specials; thorough: all 255 subsets x 3 layers); obligations = configurations + cfg predicates + api items, all must be discharged. The run-time clause (round trips) is not decided.",
             "trusted: rustc/cargo; the generated smoke client stands for client code"),
